@@ -39,9 +39,9 @@ class InotifyBuffer(BaseThread):
         """
         return self._queue.get()
 
-    def remove_tree_watches(self, path: bytes) -> None:
+    def remove_tree_watches(self, path: bytes, cookie: int | None = None) -> None:
         """Stops watching ``path`` and what lies below it (a directory that left the tree)."""
-        self._inotify.remove_tree_watches(path)
+        self._inotify.remove_tree_watches(path, cookie)
 
     def on_thread_stop(self) -> None:
         self._inotify.close()
